@@ -117,6 +117,7 @@ ResetAll ==
 \* ---------------------------------------------------------------- caller
 CallWrite(n) ==
   /\ pc = "idle" /\ ~finishing /\ n >= 0
+  /\ (TraceMode \/ n <= N - total)
   /\ left' = n
   /\ pc' = IF n = 0 THEN "idle" ELSE "loop"
   /\ UNCHANGED <<readPos, readLimit, writePos, pending, finishing, readAhead, uncomp, wpend, ctotal, base, total, emitted, bad>>
@@ -267,11 +268,20 @@ FillNew ==
   /\ pc' = "enc"
   /\ UNCHANGED <<readPos, pending, finishing, readAhead, uncomp, ctotal, base, emitted, bad>>
 
+\* named so that TLC's per-action coverage tells the situations apart (vacuity guards of the checks)
+WillMove == readPos >= BufSize - KeepAfter
+FillMove == WillMove /\ Fill
+FillStay == ~WillMove /\ Fill
+CloseRaw == pc # "idle" /\ ChunkClose("raw")
+CloseLzma == pc # "idle" /\ ChunkClose("lzma")
+FlushCall == pc = "idle" /\ CallFlush(FALSE)
+FinishCall == pc = "idle" /\ CallFlush(TRUE)
+FlushPending == pending > 0 /\ readPos < writePos - 1 /\ FlushCall   \* process_pending_bytes takes its branch in set_flushing
 Next ==
-  \/ (\E n \in 1..MaxWrite : n <= N - total /\ CallWrite(n))
-  \/ Fill \/ Encode \/ EncodeStall \/ Finish1Done
-  \/ ChunkClose("lzma") \/ ChunkClose("raw")
-  \/ CallFlush(FALSE) \/ CallFlush(TRUE)
+  \/ (\E n \in 1..MaxWrite : CallWrite(n))
+  \/ FillMove \/ FillStay \/ Encode \/ EncodeStall \/ Finish1Done
+  \/ CloseLzma \/ CloseRaw
+  \/ FlushCall \/ FinishCall
   \/ StartIndep \/ IndepNew \/ FillNew
 Spec == Init /\ [][Next]_vars
 
